@@ -5,8 +5,11 @@ import (
 	"fmt"
 	"io"
 	"net"
+	"os"
 	"runtime"
 	"runtime/metrics"
+	"sync/atomic"
+	"testing/synctest"
 	"time"
 
 	"verif/pgwire"
@@ -41,6 +44,7 @@ type SimConn struct {
 	cc   *ConnCase
 
 	pending []pgwire.Chunk
+	enc     [][]pgwire.Chunk // the steps' bytes, encoded when the connection is set up
 	poff    int64
 	step    int
 	inBytes int64
@@ -56,20 +60,21 @@ type SimConn struct {
 	QStep   []int  // index of the step fed after that quiescence point (len(steps) = end of input)
 	Alloc   []uint64
 
-	Events     []Event
-	Closed     int
-	CloseSeq   int64
-	broken     bool
-	eof        bool
-	AfterEnd   int // transport operations issued after EOF / break / close
-	Wedged     bool
-	Deadlines  int
-	FaultFired map[string]int
-	EmptyReads int
-	Started    bool
-	Stalled    bool
+	Events       []Event
+	Closed       int
+	CloseSeq     int64
+	broken       bool
+	eof          bool
+	AfterEnd     int // transport operations issued after EOF / break / close
+	Wedged       bool
+	Deadlines    int
+	FaultFired   map[string]int
+	EmptyReads   int
+	Started      bool
+	Stalled      bool
 	ClosedBefore int // Close calls seen before teardown began (teardown releases parked goroutines, whose deferred Close then runs)
-	lastAlloc  uint64
+	lastAlloc    uint64
+	rdl, wdl     time.Time // deadlines set by the server, judged against the bubble's clock
 
 	// duplex mode (a real client goroutine on the other end, engine E2)
 	duplex       bool
@@ -86,11 +91,17 @@ type SimConn struct {
 func newSimConn(rt *Runtime, id int, cc *ConnCase) *SimConn {
 	c := &SimConn{rt: rt, ID: id, cc: cc, eofAt: -1, FaultFired: map[string]int{}}
 	// operation budget: generous, but proportional to what the script feeds
+	// (the client's bytes are encoded up front, so that the harness's own
+	// allocations are not attributed to a step of the server)
 	var total int64
-	for _, st := range cc.Steps {
+	c.enc = make([][]pgwire.Chunk, len(cc.Steps))
+	for si, st := range cc.Steps {
 		for i := range st.Msgs {
 			for _, ch := range st.Msgs[i].Encode() {
 				total += ch.Len()
+				if ch.Len() > 0 {
+					c.enc[si] = append(c.enc[si], ch)
+				}
 			}
 		}
 	}
@@ -199,13 +210,8 @@ func (c *SimConn) Read(p []byte) (int, error) {
 		c.pending = nil
 		c.poff = 0
 		for c.step < len(c.cc.Steps) && len(c.pending) == 0 {
-			for i := range c.cc.Steps[c.step].Msgs {
-				for _, ch := range c.cc.Steps[c.step].Msgs[i].Encode() {
-					if ch.Len() > 0 {
-						c.pending = append(c.pending, ch)
-					}
-				}
-			}
+			c.idle(c.cc.Steps[c.step].IdleMs)
+			c.pending = c.enc[c.step]
 			c.step++
 		}
 		c.QStep = append(c.QStep, c.step)
@@ -225,6 +231,9 @@ func (c *SimConn) Read(p []byte) (int, error) {
 			}
 			c.eof = true
 		}
+	}
+	if c.expired(c.rdl, "read") {
+		return 0, os.ErrDeadlineExceeded
 	}
 	if c.eofAt >= 0 && c.inBytes >= c.eofAt && !c.eof {
 		c.eof = true
@@ -299,6 +308,9 @@ func (c *SimConn) Write(p []byte) (int, error) {
 		c.rec("write", "broken")
 		return 0, errSimBroken
 	}
+	if c.expired(c.wdl, "write") {
+		return 0, os.ErrDeadlineExceeded
+	}
 	idx := c.writes
 	c.writes++
 	if f := c.fault("write-err", idx); f != nil {
@@ -355,9 +367,55 @@ func (c *SimConn) Close() error {
 
 func (c *SimConn) LocalAddr() net.Addr                { return SimAddr{-1} }
 func (c *SimConn) RemoteAddr() net.Addr               { return SimAddr{c.ID} }
-func (c *SimConn) SetDeadline(t time.Time) error      { c.Deadlines++; return nil }
-func (c *SimConn) SetReadDeadline(t time.Time) error  { c.Deadlines++; return nil }
-func (c *SimConn) SetWriteDeadline(t time.Time) error { c.Deadlines++; return nil }
+func (c *SimConn) SetDeadline(t time.Time) error      { c.Deadlines++; c.rdl, c.wdl = t, t; return nil }
+func (c *SimConn) SetReadDeadline(t time.Time) error  { c.Deadlines++; c.rdl = t; return nil }
+func (c *SimConn) SetWriteDeadline(t time.Time) error { c.Deadlines++; c.wdl = t; return nil }
+
+// expired reports whether a deadline set by the server has passed on the
+// simulated clock (net.Conn semantics: the operation fails with a timeout).
+func (c *SimConn) expired(dl time.Time, op string) bool {
+	if dl.IsZero() || time.Now().Before(dl) {
+		return false
+	}
+	c.FaultFired["deadline-exceeded"]++
+	c.rec(op, "deadline exceeded")
+	return true
+}
+
+// idle lets simulated time pass on the client's side.
+func (c *SimConn) idle(ms int) {
+	if ms <= 0 || c.rt.isFrozen() {
+		return
+	}
+	c.FaultFired["client-idle"]++
+	d := time.Duration(ms) * time.Millisecond
+	simSleepUntil.Store(time.Now().Add(d).UnixNano())
+	simSleepers.Add(1)
+	time.Sleep(d)
+	simSleepers.Add(-1)
+}
+
+// A goroutine asleep on the bubble's fake clock counts as durably blocked, so
+// synctest.Wait alone would mistake a client that lets time pass for a
+// quiescent system: the joining goroutine sleeps along until nobody is idling.
+var (
+	simSleepers   atomic.Int32
+	simSleepUntil atomic.Int64
+)
+
+func bubbleWait() {
+	for {
+		synctest.Wait()
+		if simSleepers.Load() <= 0 {
+			return
+		}
+		if d := time.Until(time.Unix(0, simSleepUntil.Load())); d > 0 {
+			time.Sleep(d)
+		} else {
+			time.Sleep(time.Millisecond)
+		}
+	}
+}
 
 // SimListener hands out prepared connections, then blocks until Close.
 type SimListener struct {
